@@ -28,7 +28,10 @@ RULE = ("scenarios = (previous tree | none) x tarball generation (gz/bz2/xz; ser
         "{crash-before, crash-after, torn (writes only), eio}; after each run: repository directory == complete previous tree "
         "or complete new tree (spec the tarball was built from), failed download/unpack => lstat snapshot unchanged; then the next "
         "sync in a fresh process must return success and leave the complete new tree (and when it had nothing to do, a later sync "
-        "to a newer tarball must).  A case is non-trivial when the injected fault actually fired (or, for failure scenarios, the "
+        "to a newer tarball must); wherever the fault left staging dirs behind or neither tree at the repository path (thorough: "
+        "after every fault) a next sync that FAILS without crashing (404 / truncated / corrupt, rotated) comes first: afterwards "
+        "the repository must be the complete previous or new tree (a complete tree the fault left must be untouched), then the "
+        "good sync must complete; crash-before points and neither-old-nor-new states also keep the good sync straight after the fault.  A case is non-trivial when the injected fault actually fired (or, for failure scenarios, the "
         "sync really failed / was really short-circuited); distinct = (scenario, kind, operation name+path, occurrence).")
 ASSUMPTIONS = [
     "crash = death of the syncing process (os._exit at a Python-level mutation point); no power-loss reordering; the tar "
@@ -40,13 +43,16 @@ ASSUMPTIONS = [
     "'the tree' for old-or-new = names, types, modes, file contents, link targets below the repository path, without the "
     "syncer's own .etag/.modified; leftover .name.update/.name.old siblings and temp files are only counted",
     "with no previous tree, a missing or empty repository directory counts as 'the previous tree'",
+    "after a fault that left neither tree at the repository path (recorded finding rename-window) a following FAILED sync is "
+    "still required to end with the complete previous or new tree there: 'a failed download or unpack leaves the previous tree "
+    "untouched' is read as 'does not destroy the only remaining copies'",
     "tempfile.NamedTemporaryFile's opener raises two audit 'open' events for one numbered operation: an audit surplus equal to "
     "the clean run's is accepted",
 ]
 SHARDS = {"quick": 4, "thorough": 16}
 TIMEOUT = {"quick": 240, "thorough": 1800}
 MIN_EVALS = 40
-REQUIRED_COUNTERS = ("clean_syncs_judged", "fault_runs_fired", "next_syncs_run")
+REQUIRED_COUNTERS = ("clean_syncs_judged", "fault_runs_fired", "next_syncs_run", "failing_next_syncs_run")
 
 REPO = "name"
 RUN_TIMEOUT = 90
@@ -264,13 +270,15 @@ class Env:
         self.tmpdir = os.path.join(self.work, "tmp")
         comp = sc["comp"]
         n = re.sub(r"[^A-Za-z0-9_.-]", "_", sc["name"])
-        self.blob = {g: "%s-%s.tar.%s" % (n, g, comp) for g in ("old", "new", "good", "later")}
+        self.blob = {g: "%s-%s.tar.%s" % (n, g, comp) for g in ("old", "new", "good", "later", "truncated", "corrupt")}
         serve = sc["serve"]
         if sc.get("old") is not None:
             server.put(self.blob["old"], gen.blob_for(sc["old"], comp))
         server.put(self.blob["new"], gen.blob_for(sc["new"], comp, serve.get("damage")))
         server.put(self.blob["good"], gen.blob_for(sc["new"], comp))
         server.put(self.blob["later"], gen.blob_for(sc["later"], comp))
+        for how in ("truncated", "corrupt"):
+            server.put(self.blob[how], gen.blob_for(sc["new"], comp, how))
         lm = 1 if serve.get("lastmod") else 0
         beh = serve["behaviour"]
         same = beh in ("304", "same-etag")
@@ -280,6 +288,10 @@ class Env:
         # the next sync: the server delivers the good new tarball (same ETag as the interrupted attempt's)
         self.uri_next = server.uri("ok", "e2-" + n, lm and 2, self.blob["good"])
         self.uri_later = server.uri("ok", "e3-" + n, lm and 3, self.blob["later"])
+        # a next sync that FAILS (no crash): its ETag matches nothing cached, so the download is always attempted
+        self.uri_fail = {"404": server.uri("404", "e9-" + n, lm and 9, self.blob["good"]),
+                         "truncated": server.uri("ok", "e9-" + n, lm and 9, self.blob["truncated"]),
+                         "corrupt": server.uri("ok", "e9-" + n, lm and 9, self.blob["corrupt"])}
         self.exp_old = None if sc.get("old") is None else ref.expected_tree(sc["old"], gen.content)
         self.exp_new = ref.expected_tree(sc["new"], gen.content)
         self.exp_later = ref.expected_tree(sc["later"], gen.content)
@@ -292,13 +304,13 @@ class Env:
         shutil.rmtree(self.work, ignore_errors=True)
         shutil.copytree(self.tpl, self.work, symlinks=True)
 
-    def stash(self):
-        shutil.rmtree(self.save, ignore_errors=True)
-        shutil.copytree(self.work, self.save, symlinks=True)
+    def stash(self, slot=""):
+        shutil.rmtree(self.save + slot, ignore_errors=True)
+        shutil.copytree(self.work, self.save + slot, symlinks=True)
 
-    def unstash(self):
+    def unstash(self, slot=""):
         shutil.rmtree(self.work, ignore_errors=True)
-        shutil.copytree(self.save, self.work, symlinks=True)
+        shutil.copytree(self.save + slot, self.work, symlinks=True)
 
     def repo_snap(self, name=REPO):
         p = os.path.join(self.work, "repos", name)
@@ -313,7 +325,9 @@ class Env:
         return None if s is None else ref.observed_tree(s)
 
     def siblings(self, old, new):
-        """Everything next to the repository directory, classified (only counted / used to name mechanisms)."""
+        """Everything next to the repository directory, classified (only counted / used to name mechanisms).
+        `old` is one tree, a list of acceptable previous trees, or None."""
+        olds = old if isinstance(old, list) else ([old] if old is not None else [])
         out = {}
         d = os.path.join(self.work, "repos")
         for n in sorted(os.listdir(d)):
@@ -321,7 +335,7 @@ class Env:
                 continue
             p = os.path.join(d, n)
             if os.path.isdir(p) and not os.path.islink(p):
-                out[n] = ref.state_of(ref.observed_tree(self.fssnap.snap(p)), old, new)
+                out[n] = ref.state_of_any(ref.observed_tree(self.fssnap.snap(p)), olds, new)
             else:
                 out[n] = "non-directory"
         return out
@@ -440,10 +454,55 @@ def next_sync(ctx, env, base, moved_on=False):
     return True
 
 
-def judge_point(ctx, env, mode, k, ops, slack, follow=True, extra=None, expect_op=None, second=False):
+FAIL_KINDS = ("404", "truncated", "corrupt")
+KIND_INDEX = {"crash-before": 0, "crash-after": 1, "torn": 2, "eio": 0}
+
+
+def failing_next_sync(ctx, env, base, kind, olds, new, crash_state, crash_snap):
+    """The next sync after the fault FAILS without crashing (404 / truncated / corrupt tarball).  It must not make things
+    worse: afterwards the repository is the complete previous tree or the complete new tree -- also when the fault had left
+    neither at the repository path (the known rename window: the trees then only exist in the staging dirs and a failing
+    sync must not destroy them) -- and when the fault had left a complete tree, that tree is untouched.
+    Returns the witness base for the good sync that follows (None: unusable run)."""
+    res = env.run(env.uri_fail[kind])
+    ctx.count("failing_next_syncs_run")
+    if not env.usable(res):
+        return None
+    r = res.get("result") or {}
+    snap = env.repo_snap()
+    obs = None if snap is None else ref.observed_tree(snap)
+    had_old = bool(olds)
+    st = ref.state_of_any(obs, olds, new)
+    failed = bool(r.get("exc_type")) or res.get("status") != "done"
+    ctx.count("failing_next:%s:%s" % (kind, r.get("exc_type") or ("ret=%r" % (r.get("ret"),))))
+    ctx.count("state_after_failing_next:%s->%s" % (crash_state, st))
+    w = dict(base, fail_kind=kind, failing={"kind": kind, "status": res.get("status"), "run": r, "state_after": st,
+                                            "siblings_after": env.siblings(olds, new)})
+    ctx.evaluated()
+    if failed:
+        ctx.nontrivial((env.sc["name"], base.get("mode"), tuple(base.get("op") or ()), base.get("occ"), "failing-next", kind,
+                        str(base.get("first", ""))))
+    if not ref.old_or_new(st, had_old):
+        d = {}
+        if obs is not None and had_old:
+            d["diff_vs_old"] = ref.tree_diff(obs, olds[0])
+        if obs is not None and new is not None:
+            d["diff_vs_new"] = ref.tree_diff(obs, new)
+        ctx.violation("failed-next-sync-lost-tree", dict(w, rule="%s-after-%s/%s" % (st, crash_state, kind), **d))
+    elif failed and crash_state in ("old", "new"):
+        ctx.evaluated()
+        ok, d = ref.untouched(crash_snap, snap, env.fssnap.diff)
+        if not ok:
+            ctx.violation("failed-sync-touched-tree", dict(w, rule="after-fault/" + kind, snapshot_diff=d))
+    return w
+
+
+def judge_point(ctx, env, mode, k, ops, slack, follow=True, extra=None, expect_op=None, second=False, fail_kind=None,
+                orig_old=None):
     """One injected run of the sync under test + inspection + next sync.  Returns the state after the run
     (None: unusable run; "other-op": operation k is not `expect_op`, nothing judged).
-    With `second` the run is the *next* sync (good tarball) started from the stashed state an earlier fault left."""
+    With `second` the run is the *next* sync (good tarball) started from the stashed state an earlier fault left; `orig_old`
+    is then the tree from before the first interrupted sync (a recovery may legitimately bring it back)."""
     sc = env.sc
     if second:
         env.unstash()
@@ -451,7 +510,9 @@ def judge_point(ctx, env, mode, k, ops, slack, follow=True, extra=None, expect_o
         env.restore()
     before_snap = env.repo_snap()
     before = None if before_snap is None else ref.observed_tree(before_snap)
-    had_old = before is not None and bool(before)
+    before_complete = before is not None and bool(before)
+    olds = ([before] if before_complete else []) + ([orig_old] if orig_old else [])
+    had_old = bool(olds)
     uri = env.uri_next if second else env.uri_new
     delivers = True if second else env.delivers
     res = env.run(uri, mode, k)
@@ -476,8 +537,8 @@ def judge_point(ctx, env, mode, k, ops, slack, follow=True, extra=None, expect_o
     after_snap = env.repo_snap()
     obs = None if after_snap is None else ref.observed_tree(after_snap)
     new = env.exp_new if delivers else None
-    state = ref.state_of(obs, before if had_old else None, new)
-    sib = env.siblings(before if had_old else None, new)
+    state = ref.state_of_any(obs, olds, new)
+    sib = env.siblings(olds, new)
     ctx.count("state_after:%s:%s" % ("eio" if mode == "eio" else "crash", state))
     if sib:
         ctx.count("siblings_left_after_fault_run")
@@ -492,18 +553,20 @@ def judge_point(ctx, env, mode, k, ops, slack, follow=True, extra=None, expect_o
         d = {}
         if obs is not None:
             if had_old:
-                d["diff_vs_old"] = ref.tree_diff(obs, before)
+                d["diff_vs_old"] = ref.tree_diff(obs, olds[0])
             if new is not None:
                 d["diff_vs_new"] = ref.tree_diff(obs, new)
         ctx.violation("not-old-or-new", dict(base, rule="%s/%s" % (state, "eio" if mode == "eio" else "crash"), **d))
     # a sync that reports success must have installed the new tree (or had nothing to do)
     if res.get("status") == "done" and r.get("ret") is True and not r.get("exc_type") and _unpacked(res) and delivers:
         ctx.evaluated()
-        if state != "new":
+        if not ref.same(obs, new):  # (the label may read "old" when the tree before this sync already was the new one)
             ctx.violation("reported-success-without-new-tree", dict(base, rule=state))
     # failed download / unpack (error, not death): previous tree untouched
     unpack_k = next((o[0] for o in rops if o[1] == "subprocess"), None)
-    if mode == "eio" and fired and r.get("exc_type") and (not delivers or unpack_k is None or k <= unpack_k):
+    # (when an earlier fault left no tree at the path, putting the original one back is recovery, not "touching")
+    if mode == "eio" and fired and r.get("exc_type") and (not delivers or unpack_k is None or k <= unpack_k) \
+            and (before_complete or not olds):
         ctx.evaluated()
         ctx.count("failed_download_or_unpack_judged")
         ok, d = ref.untouched(before_snap, after_snap, env.fssnap.diff)
@@ -512,7 +575,26 @@ def judge_point(ctx, env, mode, k, ops, slack, follow=True, extra=None, expect_o
     if follow:
         # the state after operation k is reached by crash-after k and by crash-before k+1: one of them is followed by a
         # sync of the same tarball, the other by a sync of a newer one (the server moved on in the meantime)
-        next_sync(ctx, env, base, moved_on=mode in ("crash-after", "torn"))
+        moved_on = mode in ("crash-after", "torn")
+        bad = not ref.old_or_new(state, had_old)
+        # a FAILING next sync first, wherever the fault left something behind next to the repository (staging dirs) or left
+        # neither tree at the repository path; on the thorough tier after every fault that fired
+        with_failing = fail_kind is not None or (fired and (bool(sib) or bad or not ctx.quick))
+        if not with_failing:
+            next_sync(ctx, env, base, moved_on=moved_on)
+        else:
+            # the good sync straight after the fault keeps being exercised too (a failing sync in between may clean up
+            # what would have tripped it): for crash-before points and for every neither-old-nor-new state, from a stash
+            both = fail_kind is None and (mode == "crash-before" or bad)
+            if both:
+                env.stash("2")
+            kind = fail_kind or FAIL_KINDS[(k + KIND_INDEX.get(mode, 0)) % len(FAIL_KINDS)]
+            w = failing_next_sync(ctx, env, base, kind, olds, new, state, after_snap)
+            if w is not None:
+                next_sync(ctx, env, w, moved_on=moved_on)
+            if both:
+                env.unstash("2")
+                next_sync(ctx, env, base, moved_on=moved_on)
     return state
 
 
@@ -606,12 +688,14 @@ def run_failure(ctx, server, sc, tag):
         env.close()
 
 
-def sequence_once(ctx, env, first, second, dry_ops, slack, rng=None):
+def sequence_once(ctx, env, first, second, dry_ops, slack, rng=None, fail_kind=None):
     """The sync dies at `first` = (mode, k); the next sync (good tarball) suffers `second` = (mode, k) or, for replay,
     (mode, [op, occ]) or None (drawn); the sync after that must complete."""
     from .. import fault
 
     mode1, k1 = first
+    tpl_repo = os.path.join(env.tpl, "repos", REPO)
+    orig_old = ref.observed_tree(env.fssnap.snap(tpl_repo)) if os.path.isdir(tpl_repo) else None
     st1 = judge_point(ctx, env, mode1, k1, dry_ops, slack, follow=False)
     if st1 is None:
         return
@@ -630,7 +714,8 @@ def sequence_once(ctx, env, first, second, dry_ops, slack, rng=None):
     ctx.count("sequence_second_faults")
     info = {"mode": mode1, "k": k1, "op": norm_op(dry_ops[k1 - 1], env.work), "occ": occurrence(dry_ops, k1, env.work),
             "state_after": st1}
-    judge_point(ctx, env, mode2, k2, cnt["ops"], slack, extra={"first": info, "sequence": True}, second=True)
+    judge_point(ctx, env, mode2, k2, cnt["ops"], slack, extra={"first": info, "sequence": True}, second=True, fail_kind=fail_kind,
+                orig_old=orig_old or None)
 
 
 def run_sequence(ctx, server, sc, tag, rng, n):
@@ -752,13 +837,14 @@ def replay(ctx, w):
                 if k1 is None:
                     ctx.count("replay_operation_gone")
                     return
-                sequence_once(ctx, env, (f["mode"], k1), (mode, [w["op"], w.get("occ", 0)]), dry["ops"], min(2, dry.get("audit_unnumbered", 0)))
+                sequence_once(ctx, env, (f["mode"], k1), (mode, [w["op"], w.get("occ", 0)]), dry["ops"], min(2, dry.get("audit_unnumbered", 0)),
+                              fail_kind=w.get("fail_kind"))
                 ctx.count("replayed_points")
                 return
             st = "other-op"
             if w.get("op") and k:
                 # the recorded index first; the operation found there must be the recorded one
-                st = judge_point(ctx, env, mode, k, None, 1, expect_op=(w["op"], w.get("occ", 0)))
+                st = judge_point(ctx, env, mode, k, None, 1, expect_op=(w["op"], w.get("occ", 0)), fail_kind=w.get("fail_kind"))
             if st == "other-op":
                 env.restore()
                 dry = env.run(env.uri_new)
@@ -773,7 +859,7 @@ def replay(ctx, w):
                         ctx.count("replay_operation_gone")
                         return
                     k = k2
-                judge_point(ctx, env, mode, k, ops, slack)
+                judge_point(ctx, env, mode, k, ops, slack, fail_kind=w.get("fail_kind"))
             ctx.count("replayed_points")
         finally:
             env.close()
